@@ -77,6 +77,17 @@ def payeeCanonical (e : Env) (h : Hit) : Bool :=
       tx.code == [] && tx.date2.isNone &&
         (' ' :: (st ++ (String.fromUTF8! ⟨h.name.toArray⟩).toList)).isPrefixOf rest
 
+/-- A `nameRange` computed for the commodity of a directive whose symbol is written in quotes:
+    the range starts at the opening quote but is as long as the symbol without quotes. -/
+def quotedDirective (e : Env) (h : Option Hit) : Bool :=
+  match h with
+  | some hit =>
+    hit.derived && hit.kind == .commodity &&
+    (match e.raw[hit.rng.start.line - 1]? with
+     | some ln => ln[hit.rng.start.col - 1]? == some '"'
+     | none => false)
+  | none => false
+
 def isTagRange (e : Env) (r : Rng) : Bool :=
   let all := e.jr.transactions.flatMap fun tx =>
     tx.comments.flatMap (·.tags) ++ tx.postings.flatMap (·.tags)
@@ -95,6 +106,7 @@ def judgeCore (e : Env) (feature : String) (r : NRange) (h : Option Hit) : Optio
       if h.isSome && rng.stop == Pos.zero && (kind == .account || kind == .commodity) then "directive-name-no-end"
       else if tagLike && runeBefore e.raw nonAscii rng.stop then "tag-byte-offsets"
       else if kind == .payee && !payeeCanonical e h.get! then "payee-estimate"
+      else if quotedDirective e h then "quoted-commodity-directive"
       else if e.crlf && (afterCR e r.sl r.sc || afterCR e r.el r.ec) then "crlf-line-end"
       else ""
     return some (known, s!"{feature}: range {showR r} is not a well-formed range of the document")
@@ -114,7 +126,8 @@ def judgeCore (e : Env) (feature : String) (r : NRange) (h : Option Hit) : Optio
     return bad (if sb == name ++ [32] then "account-trailing-blank" else "") "an account"
   | .commodity =>
     if sb == name || sb == [34] ++ name ++ [34] then return none
-    return bad (if txtBytes (trimR s) == name then "commodity-text-trailing-blank" else "") "a commodity"
+    return bad (if quotedDirective e h then "quoted-commodity-directive"
+                else if txtBytes (trimR s) == name then "commodity-text-trailing-blank" else "") "a commodity"
   | .payee =>
     if sb == name then return none
     return bad (if !payeeCanonical e h.get! then "payee-estimate" else "") "a payee"
@@ -139,8 +152,8 @@ def judgeCore (e : Env) (feature : String) (r : NRange) (h : Option Hit) : Optio
   | _ => return none
 
 /-- The range the code would have sent had it converted the rune columns of `h.rng` to UTF-16
-    units with the line text (for payees only the start is a rune column: the length is
-    `UTF16Len(payee)` already). -/
+    units with the line text (for payee estimates and `nameRange`s only the start is a rune column: the length
+    is `UTF16Len(name)` already). -/
 def corrected (e : Env) (h : Hit) : Option NRange :=
   let conv (p : Pos) : Option (Nat × Nat) :=
     if p.line = 0 || p.col = 0 then none else
@@ -150,7 +163,8 @@ def corrected (e : Env) (h : Hit) : Option NRange :=
   match conv h.rng.start with
   | none => none
   | some (sl, sc) =>
-    if h.kind == .payee then some ⟨sl, sc, sl, sc + u16lenB h.name⟩
+    if h.derived && (h.kind == .payee || h.kind == .account || h.kind == .commodity) then
+      some ⟨sl, sc, sl, sc + u16lenB h.name⟩
     else match conv h.rng.stop with
       | some (el, ec) => some ⟨sl, sc, el, ec⟩
       | none => none
@@ -188,7 +202,7 @@ def judgeList (e : Env) (feature : String) (a : Acc) (impl : Array Json) (hits :
     i := i + 1
   return a
 
-def hitOther (r : Rng) : Hit := ⟨.other, [], r⟩
+def hitOther (r : Rng) : Hit := ⟨.other, [], r, false⟩
 
 def curOf (j : Json) : Cur := ⟨jnat j "l", jnat j "c"⟩
 
@@ -220,9 +234,9 @@ def doc (j : Json) : Json := Id.run do
   let diagHits : List Hit :=
     perrs.map (fun p => hitOther ⟨p.pos, p.pos⟩) ++ diagIn.map hitOther ++ loadIn.map hitOther
   a := judgeList e "diagnostic" a (jarr impl "diag") diagHits
-  let symHits := jr.transactions.map (fun tx => (⟨.transaction, [], tx.range⟩ : Hit)) ++
-    jr.directives.map (fun d => (⟨.directive, [], d.range⟩ : Hit)) ++
-    jr.includes.map (fun i => (⟨.directive, [], i.range⟩ : Hit))
+  let symHits := jr.transactions.map (fun tx => (⟨.transaction, [], tx.range, false⟩ : Hit)) ++
+    jr.directives.map (fun d => (⟨.directive, [], d.range, false⟩ : Hit)) ++
+    jr.includes.map (fun i => (⟨.directive, [], i.range, false⟩ : Hit))
   let implSym := jarr impl "sym"
   let symR : Array Json := implSym.map fun x => match x with
     | .arr v => Json.arr (v.extract 0 4)
@@ -233,7 +247,7 @@ def doc (j : Json) : Json := Id.run do
   a := judgeList e "documentSymbol" a symR symHits
   a := judgeList e "documentSymbol.selection" a symS symHits
   a := judgeList e "workspaceSymbol" a (jarr impl "wsym") (mWs.map (·.1))
-  a := judgeList e "link" a (jarr impl "link") (jr.includes.map fun i => (⟨.other, i.path, i.range⟩ : Hit))
+  a := judgeList e "link" a (jarr impl "link") (jr.includes.map fun i => (⟨.other, i.path, i.range, false⟩ : Hit))
   a := judgeList e "formatting" a (jarr (jget j "obs") "fmt") []
   -- laminar families
   let txFolds := transactionFolds fx jr
